@@ -4,7 +4,7 @@
     same function for EVERY carrier and operations record (conversion; for the constructors a case split on the
     asserts' comparisons: the source checks them one after the other, the model as one conjunction). *)
 From Coq Require Import List Bool ZArith.
-From Compute Require Import Base.Ops Base.RsExpr Model.Kernels Generated.kernels Proofs.TieA_tac.
+From Compute Require Import Base.Ops Base.RsExpr Model.Kernels Model.Shape Model.KernelsPlumbing Generated.kernels Proofs.TieA_tac.
 
 Section TieA.
   Context {T : Type} (O : Ops T).
@@ -18,4 +18,21 @@ Section TieA.
   Lemma tiea_RationalQuadraticKernel_new :
     forall var alpha ls, RationalQuadraticKernel_new O var alpha ls = rq_new O var alpha ls.
   Proof. intros var alpha ls. unfold RationalQuadraticKernel_new, rq_new. tiea_cases. Qed.
+
+  (** matrix form: the translator checked on the source text that the body of the matrix-form [forward] is the two
+      reshapes, the assertion on the sizes, and then token for token the scalar body; the reshape requests it read out
+      are the ones [to_column] / [to_row] of Model/KernelsPlumbing.v make, for all four argument types *)
+  Lemma tiea_matrix_form_prologue (a : karg T) :
+    to_column a =
+      match a with
+      | KVector v | KRefVector v => Shape.new v (fst kernels_matrix_form_x_reshape) (snd kernels_matrix_form_x_reshape)
+      | KMatrix m | KRefMatrix m => Shape.reshape m (fst kernels_matrix_form_x_reshape) (snd kernels_matrix_form_x_reshape)
+      end /\
+    to_row a =
+      match a with
+      | KVector v | KRefVector v => Shape.new v (fst kernels_matrix_form_y_reshape) (snd kernels_matrix_form_y_reshape)
+      | KMatrix m | KRefMatrix m => Shape.reshape m (fst kernels_matrix_form_y_reshape) (snd kernels_matrix_form_y_reshape)
+      end /\
+    kernels_matrix_form_asserts_nonempty = true /\ kernels_matrix_form_rest_is_scalar_body = true.
+  Proof. destruct a; repeat split. Qed.
 End TieA.
